@@ -584,6 +584,19 @@ class Engine(object):
                 cont(s2, pos, kws)
             self.ev_seq(list(n.args) + kwnodes, s, got)
 
+        if isinstance(f, ast.Name) and f.id == '_assert' and getattr(n, '_is_ghost', False):
+            # ghost checkpoint: assert (obligation) then assume a spec formula at this program point
+            label = n.args[1].value if len(n.args) > 1 else 'checkpoint'
+            s2 = st.fork()
+            s2.env = dict(st.env)
+            for nm, v in self.entry_state.env.items():
+                s2.env.setdefault(nm, v)
+            ctx = SpecCtx(s2, old=self.entry_state, entry=self.entry_state)
+            fml = self.speceval.formula(n.args[0].value, ctx)
+            st.assume(*ctx.side)
+            self.oblige('checkpoint/%s' % label, st, fml, getattr(n, 'lineno', None))
+            st.assume(fml)
+            return k(st, NONE_V)
         if isinstance(f, ast.Name):
             name = f.id
             if name in st.env:
@@ -670,13 +683,33 @@ class Engine(object):
             return self.method_externs[key](self, n, o, pos, kws, st, k)
         raise Unsupported('method %s on %s (line %s)' % (mname, o.ty, getattr(n, 'lineno', '?')))
 
-    def spec_for_call(self, fi):
+    def spec_for_call(self, fi, actual=None):
         if self.cur_spec is not None and fi.qualname in self.cur_spec.inline:
             return None
         specs = REG['fns'].get(fi.qualname)
         if not specs:
             return None
         s = specs[0]
+        if actual is not None and len(specs) > 1:
+            # several contracts for one function (argument-type variants): first one whose declared
+            # parameter kinds fit the actual arguments
+            for cand in specs:
+                ok = True
+                for (nm, ty) in cand.args:
+                    v = actual.get(nm)
+                    if v is None:
+                        continue
+                    want = ty.args[0].kind if ty.kind == 'opt' else ty.kind
+                    have = v.ty.kind
+                    if have == 'none' and ty.kind == 'opt':
+                        continue
+                    if want == 'any' or have == want or (want == 'float' and have in ('int', 'bool')):
+                        continue
+                    ok = False
+                    break
+                if ok:
+                    s = cand
+                    break
         if not s.contract_at_calls:
             return None
         if self.cur_fi is not None and fi.qualname == self.cur_fi.qualname and self.depth0:
@@ -724,11 +757,13 @@ class Engine(object):
         step(0, st)
 
     def call_repo(self, fi, pos, kws, st, k, n, static_owner=None):
-        spec = self.spec_for_call(fi)
         if fi.qualname in (self.cur_spec.opaque_calls if self.cur_spec else ()):
             raise Unsupported('opaque call ' + fi.qualname)
-        if spec is not None:
-            return self.bind_params(fi, pos, kws, st, lambda s, b: self.call_contract(spec, fi, b, s, k, n))
+        if self.spec_for_call(fi) is not None:
+            def with_bound(s, b):
+                spec = self.spec_for_call(fi, b)
+                self.call_contract(spec, fi, b, s, k, n)
+            return self.bind_params(fi, pos, kws, st, with_bound)
         return self.bind_params(fi, pos, kws, st, lambda s, b: self.call_inline(fi, b, s, k, n))
 
     def call_inline(self, fi, bound, st, k, n):
@@ -752,12 +787,41 @@ class Engine(object):
             caller_ctl.handler(s, exc)
 
         st.env = dict(bound)
-        st.ctl = Ctl(ret=ret, brk=None, cont=None, handler=handler, depth=caller_ctl.depth + 1, fname=fi.qualname)
+        # the callee's own sidecar spec (loop invariants, ghost code) is used inside the inlined body:
+        # `old` in those invariants is the callee's entry state
+        cspec = self.variant_for(fi, bound)
+        inl = None
+        if cspec is not None:
+            self.inline_count = getattr(self, 'inline_count', 0) + 1
+            centry = st.fork()
+            centry.env = dict(bound)
+            inl = (cspec, centry, self.inline_count, fi)
+        st.ctl = Ctl(ret=ret, brk=None, cont=None, handler=handler, depth=caller_ctl.depth + 1, fname=fi.qualname, inl=inl)
         self.depth0 = False
         try:
             self.ex_block(fi.node.body, st, lambda s: ret(s, NONE_V))
         finally:
             self.depth0 = was_depth0
+
+    def variant_for(self, fi, bound):
+        specs = REG['fns'].get(fi.qualname)
+        if not specs:
+            return None
+        for cand in specs:
+            ok = True
+            for (nm, ty) in cand.args:
+                v = bound.get(nm)
+                if v is None:
+                    continue
+                want = ty.args[0].kind if ty.kind == 'opt' else ty.kind
+                have = v.ty.kind
+                if (have == 'none' and ty.kind == 'opt') or want == 'any' or have == want or (want == 'float' and have in ('int', 'bool')):
+                    continue
+                ok = False
+                break
+            if ok:
+                return cand
+        return specs[0]
 
     def call_contract(self, spec, fi, bound, st, k, n):
         self.contracts_used.add(spec.qualname)
@@ -831,6 +895,18 @@ class Engine(object):
             p.assume(self.speceval.formula(eexpr, cx))
             p.assume(*cx.side)
         p.env = caller_env
+        if self.cur_spec is not None and self.cur_spec.call_lemmas:
+            lp = p.fork()
+            lp.env = dict((nm, v) for nm, v in self.entry_state.env.items())
+            pre2 = pre.fork()
+            pre2.env = dict(lp.env)
+            cl = SpecCtx(lp, old=pre2, entry=pre2)
+            for lexpr in self.cur_spec.call_lemmas:
+                try:
+                    self.speceval.value(lexpr, cl)
+                except Unsupported:
+                    pass
+            p.assume(*cl.side)
         if res.ty.kind == 'opt':
             return self.resolve_opt(p, res, k)
         k(p, res)
@@ -850,7 +926,26 @@ class Engine(object):
     def ex_block(self, stmts, st, k):
         if not stmts:
             return k(st)
-        return self.ex(stmts[0], st, lambda s: self.ex_block(stmts[1:], s, k))
+        first = stmts[0]
+        ghost = None
+        gsrc = list(self.cur_spec.ghost_after) if self.cur_spec is not None else []
+        if st.ctl.inl is not None:
+            gsrc = gsrc + list(st.ctl.inl[0].ghost_after)
+        if gsrc and not getattr(first, '_is_ghost', False):
+            try:
+                txt = ast.unparse(first).split('\n')[0]
+            except Exception:
+                txt = None
+            for (m, body) in gsrc:
+                if m == txt:
+                    ghost = body
+                    for g in body:
+                        for x in ast.walk(g):
+                            x._is_ghost = True
+                    break
+        if ghost is not None:
+            return self.ex(first, st, lambda s: self.ex_block(ghost, s, lambda s2: self.ex_block(stmts[1:], s2, k)))
+        return self.ex(first, st, lambda s: self.ex_block(stmts[1:], s, k))
 
     def ex(self, n, st, k):
         m = getattr(self, 'ex_' + type(n).__name__, None)
@@ -1077,9 +1172,18 @@ class Engine(object):
         raise Unsupported('except clause type')
 
     # ---- loops -------------------------------------------------------------------------------
-    def loop_spec(self, n):
-        if st_is_top(self):
-            pass
+    def loop_spec(self, n, st=None):
+        inl = st.ctl.inl if st is not None else None
+        if inl is not None and self.loop_ordinals.get(id(n)) is None:
+            cspec, centry, inst, cfi = inl
+            hdr = loop_header(n)
+            from .verify import loop_ordinals as _lo
+            ords = _lo(cfi.node)
+            o = ords.get(id(n))
+            for key, ls in cspec.loops.items():
+                if (ls.header is not None and ls.header == hdr) or (ls.header is None and key == o):
+                    return 'inl%d' % inst, ls
+            return 'inl%d' % inst, None
         ordinal = self.loop_ordinals.get(id(n))
         if ordinal is None:
             return None, None
@@ -1127,24 +1231,30 @@ class Engine(object):
                 return ['*']
         return []
 
+    def frame_entry(self, st):
+        return st.ctl.inl[1] if st.ctl.inl is not None else self.entry_state
+
     def check_invs(self, what, ordinal, lspec, st, extra, line):
-        ctx = SpecCtx(st, old=self.entry_state, extra=extra, entry=self.entry_state)
+        ent = self.frame_entry(st)
+        ctx = SpecCtx(st, old=ent, extra=extra, entry=ent)
         for (iname, iexpr) in (lspec.invariants if lspec else ()):
             f = self.speceval.formula(iexpr, ctx)
             st.assume(*ctx.side)
-            o = self.oblige('loop%d/%s/%s' % (ordinal, what, iname), st, f, line)
+            lname = ('loop%d' % ordinal) if isinstance(ordinal, int) else ('%s(%s)/loop' % (st.ctl.inl[3].name, ordinal))
+            o = self.oblige('%s/%s/%s' % (lname, what, iname), st, f, line)
             if what == 'inv_step' and iname in lspec.uses:
                 keep = lspec.uses[iname] | set([iname])
                 tags = getattr(st, 'inv_tags', {})
-                o.hyps = [h for h in o.hyps if not (h.get_id() in tags and tags[h.get_id()][0] == ordinal and tags[h.get_id()][1] not in keep)]
+                o.hyps = [h for h in o.hyps if not (h.get_id() in tags and tags[h.get_id()][0] == id(lspec) and tags[h.get_id()][1] not in keep)]
 
     def assume_invs(self, lspec, st, extra):
-        ctx = SpecCtx(st, old=self.entry_state, extra=extra, entry=self.entry_state)
+        ent = self.frame_entry(st)
+        ctx = SpecCtx(st, old=ent, extra=extra, entry=ent)
         tags = dict(getattr(st, 'inv_tags', {}))
         for (iname, iexpr) in (lspec.invariants if lspec else ()):
             f = self.speceval.formula(iexpr, ctx)
             st.assume(f)
-            tags[f.get_id()] = (ordinal_of(lspec, self), iname)
+            tags[f.get_id()] = (id(lspec), iname)
             st.assume(*ctx.side)
         st.inv_tags = tags
 
@@ -1153,7 +1263,8 @@ class Engine(object):
         loop and, through st.ghost, to everything after"""
         if lspec is None or not lspec.ghost:
             return
-        ctx = SpecCtx(st, old=self.entry_state, extra=extra, entry=self.entry_state)
+        ent = self.frame_entry(st)
+        ctx = SpecCtx(st, old=ent, extra=extra, entry=ent)
         st.ghost = dict(st.ghost)
         for gname, gexpr in lspec.ghost.items():
             v = self.speceval.value(gexpr, ctx)
@@ -1185,7 +1296,7 @@ class Engine(object):
         return nv
 
     def ex_While(self, n, st, k):
-        ordinal, lspec = self.loop_spec(n)
+        ordinal, lspec = self.loop_spec(n, st)
         if n.orelse:
             raise Unsupported('while/else')
         line = n.lineno
@@ -1200,7 +1311,7 @@ class Engine(object):
         self.havoc(head, self.loop_modifies(n, lspec))
         self.havoc_locals(head, names)
         self.assume_invs(lspec, head, extra)
-        head.note('loop%d' % ordinal)
+        head.note('loop%s' % ordinal)
         dec0 = None
         if lspec is not None and lspec.decreases:
             cx = SpecCtx(head, old=self.entry_state, extra=extra)
@@ -1216,7 +1327,7 @@ class Engine(object):
             if dec0 is not None:
                 cx = SpecCtx(s, old=self.entry_state, extra=extra)
                 d1 = self.speceval.value(lspec.decreases, cx)
-                self.oblige('loop%d/decreases' % ordinal, s, z3.And(dec0.t >= 0, d1.t < dec0.t), line)
+                self.oblige('loop%s/decreases' % ordinal, s, z3.And(dec0.t >= 0, d1.t < dec0.t), line)
             # path ends here (cut point)
 
         def got(s, c):
@@ -1224,14 +1335,14 @@ class Engine(object):
                 def enter(s3):
                     s3.ctl = outer.but(brk=after, cont=body_end)
                     self.ex_block(n.body, s3, body_end)
-                self.branch(s2, b, enter, after, note='while%d' % ordinal)
+                self.branch(s2, b, enter, after, note='while%s' % ordinal)
             self.truth(s, c, on)
         return self.ev(n.test, head, got)
 
     def ex_For(self, n, st, k):
         if n.orelse:
             raise Unsupported('for/else')
-        ordinal, lspec = self.loop_spec(n)
+        ordinal, lspec = self.loop_spec(n, st)
         line = n.lineno
         # literal tuple/list: unrolled completely (exact)
         if isinstance(n.iter, (ast.Tuple, ast.List)) and all(isinstance(e, ast.Constant) for e in n.iter.elts):
@@ -1313,7 +1424,8 @@ class Engine(object):
         outer = st.ctl
         if ordinal is None:
             raise Unsupported('loop inside an inlined callee needs a contract for the callee (line %d)' % line)
-        iname = (lspec.index if lspec and lspec.index else '_i%d' % ordinal)
+        iname = (lspec.index if lspec and lspec.index else '_i%s' % ordinal)
+        gname = iname if isinstance(ordinal, int) else '%s@%s' % (iname, ordinal)   # ghost key (unique per inlined instance)
         self.loop_ghosts(lspec, st, extra0)
         extra = dict(extra0)
         extra[iname] = SV(INT, start)
@@ -1331,8 +1443,8 @@ class Engine(object):
         if on_head is not None:
             on_head(head)
         head.ghost = dict(head.ghost)
-        head.ghost[iname] = SV(INT, i)      # after the loop: the index value at exit
-        head.note('loop%d' % ordinal)
+        head.ghost[gname] = SV(INT, i)      # after the loop: the index value at exit
+        head.note('loop%s' % ordinal)
 
         def after(s):
             s.ctl = outer
@@ -1349,12 +1461,12 @@ class Engine(object):
             s.assume_wf(v)
             s.ctl = outer.but(brk=after, cont=body_end)
             s.ghost = dict(s.ghost)
-            s.ghost[iname] = SV(INT, i)
+            s.ghost[gname] = SV(INT, i)
             def bound(s2, v2):
                 self.assign(n.target, v2, s2, lambda s3: self.ex_block(n.body, s3, body_end))
             self.resolve_opt(s, v, bound)
 
-        self.branch(head, in_range(head, i), enter, after, note='for%d' % ordinal)
+        self.branch(head, in_range(head, i), enter, after, note='for%s' % ordinal)
 
 
 def loop_header(n):
